@@ -130,10 +130,14 @@ Proof.
     + rewrite afind_aset_neq by auto. rewrite <- H2. split; [intros [X|[X|[]]]; auto; congruence|auto].
   - apply NoDup_app_ok; auto.
   - rewrite app_length. simpl. lia.
-  - destruct pr; simpl; auto. destruct (procs L); simpl; auto.
-  - intros k Hk. rewrite in_app_iff. destruct pr; simpl in Hk; auto. destruct (procs L) eqn:Ep; simpl in Hk.
+  - pose proof (demote_gap_free (tnonce t) _ H5) as Hg.
+    destruct pr; cbn [andb]; auto. destruct (demote (tnonce t) (procs L)); simpl; auto.
+  - intros k Hk. rewrite in_app_iff.
+    assert (Hd : forall x, In x (demote (tnonce t) (procs L)) -> In x (nonces L)).
+    { intros x Hx. apply H6. apply (demote_In _ _ _ H5 Hx). }
+    destruct pr; cbn [andb] in Hk; auto. destruct (demote (tnonce t) (procs L)) eqn:Ep; simpl in Hk.
     + destruct Hk as [<-|[]]. right; left; auto.
-    + left. apply H6. auto.
+    + left. apply Hd. exact Hk.
 Qed.
 
 Lemma list_add_inv : forall m d a t pr L, (1 <= m)%nat -> tsender t = a -> ListInv m a L ->
@@ -187,7 +191,8 @@ Lemma list_promote_inv : forall m a ts L, ListInv m a L -> ListInv m a (fst (lis
 Proof.
   intros m a ts L HI. pose proof HI as (H1 & H2 & H3 & H4 & H5 & H6). unfold list_promote.
   destruct (forallb _ ts) eqn:Ef; cbn [fst]; auto.
-  destruct (consecutive_b _) eqn:Ec; cbn [fst]; auto.
+  destruct (consecutive_b _ && _) eqn:Ec; cbn [fst]; auto.
+  apply andb_true_iff in Ec. destruct Ec as [Ec Emin].
   unfold ListInv; cbn [txs nonces procs]. split; [|split; [|split; [|split; [|split]]]]; auto.
   - apply consecutive_gap_free; auto; [apply sortN_sorted|].
     eapply Permutation_NoDup; [apply Permutation_sym, sortN_perm|apply NoDup_nodup].
@@ -198,7 +203,7 @@ Qed.
 
 Lemma list_promote_txs : forall ts L, txs (fst (list_promote ts L)) = txs L /\ nonces (fst (list_promote ts L)) = nonces L.
 Proof.
-  intros. unfold list_promote. destruct (forallb _ ts); cbn [fst]; auto. destruct (consecutive_b _); cbn [fst]; auto.
+  intros. unfold list_promote. destruct (forallb _ ts); cbn [fst]; auto. destruct (consecutive_b _ && _); cbn [fst]; auto.
 Qed.
 
 (* a nonce that becomes processable in Promote belongs to one of the promoted transactions, still present with the same id *)
@@ -206,7 +211,7 @@ Lemma list_promote_new : forall ts L k, In k (procs (fst (list_promote ts L))) -
   In k (procs L) \/ exists u ex, In u ts /\ tnonce u = k /\ afind k (txs L) = Some ex /\ tid ex = tid u.
 Proof.
   intros ts L k Hk. unfold list_promote in Hk. destruct (forallb _ ts) eqn:Ef; cbn [fst] in Hk; auto.
-  destruct (consecutive_b _); cbn [fst procs] in Hk; auto.
+  destruct (consecutive_b _ && _); cbn [fst procs] in Hk; auto.
   apply (proj1 (sortN_In _ _)) in Hk. apply (proj1 (nodup_In _ _ _)) in Hk. apply in_app_or in Hk. destruct Hk as [Hk|Hk]; auto.
   right. apply in_map_iff in Hk. destruct Hk as (u & <- & Hu). rewrite forallb_forall in Ef. specialize (Ef u Hu).
   destruct (afind (tnonce u) (txs L)) as [ex|] eqn:E; [|discriminate]. apply N.eqb_eq in Ef. exists u, ex. auto.
@@ -314,8 +319,9 @@ Proof.
            rewrite afind_aset_neq by auto. rewrite afind_adel_neq; auto.
       * intros rid Hr. inversion Hr; subst. exists (max_nonce L), exm. split; auto. split; auto. right.
         rewrite afind_aset_neq by auto. apply afind_adel_eq.
-      * intros k Hk. destruct (demote_In _ _ _ H5 Hk) as [Hp Hlt].
-        assert (k <> tnonce t). { intros ->. apply H6 in Hp. apply H2 in Hp. congruence. }
+      * intros k Hk. destruct (demote_In _ _ _ (demote_gap_free (max_nonce L) _ H5) Hk) as [Hk1 Hlt1].
+        destruct (demote_In _ _ _ H5 Hk1) as [Hp Hlt].
+        assert (k <> tnonce t) by lia.
         split; auto. split; auto. rewrite afind_aset_neq by auto. apply afind_adel_neq. lia.
       * intros; discriminate.
       * intros _ rid Hr. inversion Hr; subst. split; auto. exists exm. auto.
@@ -324,7 +330,7 @@ Proof.
       split; [|split; [|split; [|split]]].
       * intros k u Hf. left. assert (tnonce t <> k) by (intros <-; congruence). rewrite afind_aset_neq; auto.
       * intros; discriminate.
-      * intros k Hk. assert (k <> tnonce t). { intros ->. apply H6 in Hk. apply H2 in Hk. congruence. }
+      * intros k Hk. destruct (demote_In _ _ _ H5 Hk) as [Hp Hlt]. assert (k <> tnonce t) by lia.
         split; auto. split; auto. apply afind_aset_neq. auto.
       * intros; discriminate.
       * intros; discriminate.
@@ -334,4 +340,75 @@ Lemma list_add_empty_ok : forall m d t, (1 <= m)%nat -> snd (fst (list_add m d t
 Proof.
   intros. unfold list_add, empty_list; cbn [txs nonces procs afind length]. 
   destruct (m <? 0 + 1)%nat eqn:E; auto. apply Nat.ltb_lt in E. lia.
+Qed.
+
+(* ---- processables are the sender's LOWEST nonces ---- *)
+Definition LowInv (L : txlist) : Prop :=
+  forall n p, In n (nonces L) -> In p (procs L) -> n < p -> In n (procs L).
+
+Lemma empty_list_low : LowInv empty_list.
+Proof. intros n p Hn. simpl in Hn. contradiction. Qed.
+
+Lemma gap_free_between : forall l x z p, gap_free (x :: l) -> In p (x :: l) -> x <= z -> z <= p -> In z (x :: l).
+Proof.
+  induction l as [|y r IH]; intros x z p Hg Hp Hxz Hzp.
+  - destruct Hp as [<-|[]]. left. lia.
+  - destruct Hg as [-> Hg]. destruct (N.eq_dec x z) as [->|Hne]; [left; auto|]. right.
+    destruct Hp as [<-|Hp]; [lia|]. apply (IH (x + 1) z p); auto. lia.
+Qed.
+
+Lemma min_nonce_le_gen : forall l acc, fold_left N.min l acc <= acc /\ forall x, In x l -> fold_left N.min l acc <= x.
+Proof.
+  induction l as [|y r IH]; simpl; intros acc; [split; [lia|contradiction]|].
+  destruct (IH (N.min acc y)) as [H1 H2]. split; [lia|]. intros x [->|Hx]; [lia|auto].
+Qed.
+Lemma min_nonce_le : forall L n, In n (nonces L) -> min_nonce L <= n.
+Proof. intros L n H. unfold min_nonce. apply (proj2 (min_nonce_le_gen (nonces L) (W64 - 1))). auto. Qed.
+
+Lemma demote_In_rev : forall t ps n, gap_free ps -> In n ps -> n < t -> In n (demote t ps).
+Proof. intros. rewrite demote_eq by auto. apply filter_In. split; auto. apply N.ltb_lt. auto. Qed.
+
+Lemma list_remove_low : forall m a t L, ListInv m a L -> LowInv L -> LowInv (fst (list_remove t L)).
+Proof.
+  intros m a t L (H1 & H2 & H3 & H4 & H5 & H6) HL. unfold list_remove. destruct (afind t (txs L)) eqn:E; cbn [fst]; auto.
+  intros n p Hn Hp Hlt. cbn [nonces procs] in *. apply filter_In in Hn. destruct Hn as [Hn _].
+  destruct (demote_In _ _ _ H5 Hp) as [Hp1 Hpt]. apply demote_In_rev; auto; [|lia]. eapply HL; eauto.
+Qed.
+
+Lemma list_insert_low : forall m a t L, ListInv m a L -> LowInv L -> LowInv (list_insert t false L).
+Proof.
+  intros m a t L (H1 & H2 & H3 & H4 & H5 & H6) HL n p Hn Hp Hlt. unfold list_insert in *. cbn [nonces procs andb] in *.
+  destruct (demote_In _ _ _ H5 Hp) as [Hp1 Hpt]. apply in_app_or in Hn.
+  destruct Hn as [Hn|[<-|[]]]; [|lia]. apply demote_In_rev; auto; [|lia]. eapply HL; eauto.
+Qed.
+
+Lemma list_add_low : forall m d a t L, (1 <= m)%nat -> ListInv m a L -> LowInv L ->
+  LowInv (fst (fst (list_add m d t false L))).
+Proof.
+  intros m d a t L Hm HI HL. pose proof HI as (H1 & H2 & H3 & H4 & H5 & H6). unfold list_add.
+  destruct (afind (tnonce t) (txs L)) as [ex|] eqn:E.
+  - destruct ((tfee t <? tfee ex) || (tfee t - tfee ex <? d)); cbn [fst]; auto.
+    intros n p Hn Hp Hlt. cbn [nonces procs] in *. destruct (demote_In _ _ _ H5 Hp) as [Hp1 Hpt].
+    apply demote_In_rev; auto; [|lia]. eapply HL; eauto.
+  - destruct (m <? length (nonces L) + 1)%nat.
+    + destruct (max_nonce L <? tnonce t); cbn [fst]; auto.
+      destruct (list_remove (max_nonce L) L) as [L1 rid] eqn:ER. cbn [fst].
+      assert (HL1 : L1 = fst (list_remove (max_nonce L) L)) by (rewrite ER; auto). subst L1.
+      eapply list_insert_low; [apply list_remove_inv; eauto|eapply list_remove_low; eauto].
+    + cbn [fst]. eapply list_insert_low; eauto.
+Qed.
+
+Lemma list_promote_low : forall m a ts L, ListInv m a L -> LowInv L -> LowInv (fst (list_promote ts L)).
+Proof.
+  intros m a ts L HI HL. pose proof HI as (H1 & H2 & H3 & H4 & H5 & H6). unfold list_promote.
+  destruct (forallb _ ts) eqn:Ef; cbn [fst]; auto.
+  destruct (consecutive_b _ && _) eqn:Ec; cbn [fst]; auto.
+  apply andb_true_iff in Ec. destruct Ec as [Ec Emin].
+  set (u := sortN (nodup N.eq_dec (procs L ++ map tnonce ts))) in *.
+  assert (Hg : gap_free u).
+  { apply consecutive_gap_free; auto; [apply sortN_sorted|].
+    eapply Permutation_NoDup; [apply Permutation_sym, sortN_perm|apply NoDup_nodup]. }
+  intros n p Hn Hp Hlt. cbn [nonces procs] in *.
+  destruct u as [|x r] eqn:Eu; [contradiction|]. apply N.eqb_eq in Emin.
+  apply (gap_free_between r x n p); auto; [|lia]. rewrite Emin. apply min_nonce_le. auto.
 Qed.
